@@ -17,6 +17,8 @@ ASSUMPTIONS = [
     "a thread-server run with COMMTIMEOUT in which the harness itself was slower than 0.55*COMMTIMEOUT between two events is discarded and repeated (timing guard)",
     "whether a request sent completely and followed by an abortive reset was still served is observed (execution log) and given to the model as part of the event",
     "exception classes outside Pyro5/errors.py raised by user code are represented by one generic class (ValueError / KeyError)",
+    "a tracked resource whose close() raises (11 Exception subclasses tried) counts as closed once: the call is what is counted; BaseException-only classes (SystemExit, KeyboardInterrupt) are not tried",
+    "worker hand-over interleaving (thread server) is forced from the harness process by wrapping Pool.notify_done / Pool.process (the worker parks right after handing itself back while the next connection is dispatched); other interleavings of the pool bookkeeping are C18's subject",
 ]
 IMPORTS = "From V Require Import Model.Cleanup Gen.GenCleanup Harness.Cmp Harness.H13."
 NPROC = max(2, min(8, (os.cpu_count() or 4) // 2))
@@ -102,7 +104,10 @@ def oracle(case, obs):
                 if s["tracked"]:
                     say("tracked-not-cleared", "connection %s ended at step %d but still tracks %s" % (c, i, s["tracked"]))
         if st["slots"] > len(alive):
-            say("slot-not-released", "step %d: %d worker/selector slot(s) held for %d live connection(s)" % (i, st["slots"], len(alive)))
+            say("slot-not-released", "step %d: %d worker/selector slot(s) held for %d live connection(s)%s" % (
+                i, st["slots"], len(alive),
+                " (%d worker thread(s) listed busy have terminated: a dispatched connection was dropped)" % st["dead_workers"]
+                if st.get("dead_workers") else ""))
         elif st["slots"] < len(alive):
             say("slot-lost", "step %d: %d worker/selector slot(s) held for %d live connection(s)" % (i, st["slots"], len(alive)))
         for c in alive:
@@ -186,9 +191,18 @@ def gen_case(rng, stype, timeout, reqlen):
     nmax = rng.choice([1, 2, 2, 3, 3, 4, 5])
     length = rng.randint(3, 7) if (timeout and stype == "thread") else rng.randint(3, 14)
     evs, alive, nextc, ntimeouts = [], [], 0, 0
-    sim_open = 0
+    idle = 1          # simulated number of idle pool workers (THREADPOOL_SIZE_MIN = 1)
     for _ in range(length):
         r = rng.random()
+        if stype == "thread" and not timeout and alive and idle == 0 and len(alive) <= I.POOL and rng.random() < 0.12:
+            # worker hand-over: a connection is accepted exactly while the worker of an ending one returns to the pool
+            c = rng.choice(alive)
+            alive.remove(c)
+            evs.append(["end", c, "close", "gated"])
+            evs.append(["connect", nextc, True, "gated"])
+            alive.append(nextc)
+            nextc += 1
+            continue
         if not alive or (r < 0.22 and nextc < nmax + 2):
             ok = rng.random() < 0.88
             c = nextc
@@ -196,6 +210,7 @@ def gen_case(rng, stype, timeout, reqlen):
             evs.append(["connect", c, ok])
             if ok and (stype != "thread" or len(alive) < I.POOL):
                 alive.append(c)
+                idle = max(0, idle - 1)
             continue
         c = rng.choice(alive)
         tgt = rng.choice(["S", "P"])
@@ -212,6 +227,7 @@ def gen_case(rng, stype, timeout, reqlen):
                 alive = []
             elif k > 0:
                 alive.remove(c)
+            idle = 1
         else:
             how = rng.choice(ENDINGS)
             if how in ("security", "callback"):
@@ -225,9 +241,15 @@ def gen_case(rng, stype, timeout, reqlen):
             else:
                 evs.append(["end", c, how])
             alive.remove(c)
+            idle = 1
     if timeout and ntimeouts == 0 and alive:
         evs.append(["timeout", rng.choice(alive), rng.choice([0, 1, 6, 40, reqlen - 1])])
-    return {"stype": stype, "timeout": timeout, "events": evs}
+    case = {"stype": stype, "timeout": timeout, "events": evs}
+    if rng.random() < 0.45:
+        # resources whose close() raises (after being counted): must not keep the others from being closed
+        n = rng.choice([1, 1, 2, 3])
+        case["faulty"] = {str(r): rng.choice(I.FAULT_CLASSES) for r in rng.sample(range(I.NRES), n)}
+    return case
 
 
 def targeted(ctx, reqlen):
@@ -253,10 +275,25 @@ def targeted(ctx, reqlen):
         out.append({"stype": stype, "timeout": False, "events": [
             ["connect", 0, True], ["connect", 1, True], ["connect", 2, True], ["connect", 3, True], ["req", 1, "P", "track", 0],
             ["end", 1, "cut", 9, "P", "nop", 0, "close"], ["connect", 4, True], ["req", 4, "S", "track", 1], ["end", 4, "malformed", "magic"]]})
+        # a connection ending with all resources tracked; the close() of one of them raises: every position in the
+        # (arbitrary) iteration order of the tracked set is hit by making each resource the faulty one in turn
+        I = impl()
+        for r in range(I.NRES):
+            for how in (["end", 0, "close"], ["end", 0, "malformed", "magic"], ["raise", 0, "P", "security"]):
+                out.append({"stype": stype, "timeout": False, "faulty": {str(r): I.FAULT_CLASSES[(r * 3 + len(how)) % len(I.FAULT_CLASSES)]},
+                            "events": [["connect", 0, True], ["connect", 1, True]] + [["req", 0, "P", "track", x] for x in range(I.NRES)] +
+                                      [["req", 1, "S", "track", r], ["req", 0, "S", "untrack", (r + 1) % I.NRES], how, ["req", 1, "P", "nop", 0]]})
         for k in (0, 1, 6, 39, 41, reqlen - 1):
             out.append({"stype": stype, "timeout": True, "events": [
                 ["connect", 0, True], ["connect", 1, True], ["req", 0, "S", "track", 0], ["req", 1, "P", "track", 1],
                 ["timeout", 0, k]]})
+    # worker hand-over (thread server): the only worker returns to the pool exactly while the next connection is accepted
+    for pre in ([], [["connect", 7, True]], [["connect", 7, True], ["connect", 8, True]]):
+        for tail in ([["end", 1, "close"]], [["raise", 1, "S", "security"]],
+                     [["end", 1, "close", "gated"], ["connect", 2, True, "gated"], ["req", 2, "S", "track", 3]]):
+            out.append({"stype": "thread", "timeout": False, "events": pre + [
+                ["connect", 0, True], ["req", 0, "S", "track", 0], ["req", 0, "P", "track", 1],
+                ["end", 0, "close", "gated"], ["connect", 1, True, "gated"], ["req", 1, "S", "track", 2], ["req", 1, "P", "track", 1]] + tail})
     return out
 
 
@@ -316,7 +353,11 @@ def execute(ctx, cases, model_ok, res, stop_after=6):
             continue
         res.seen(case, "error" not in o and nontrivial(case, o))
         res.count("server:%s%s" % (case["stype"], "+timeout" if case["timeout"] else ""))
+        if case.get("faulty"):
+            res.count("faulty_close_resources:%d" % len(case["faulty"]))
         for ev in case["events"]:
+            if ev[0] == "connect" and len(ev) > 3:
+                res.count("event:worker-handover")
             res.count("event:" + ev[0] + (":" + str(ev[2]) if ev[0] == "end" else (":" + ev[3] if ev[0] == "raise" else "")))
         for sig, what in oracle(case, o):
             res.violations.append({"signature": sig, "what": what, "case": case})
